@@ -30,6 +30,17 @@ class ConstDomain(Domain):
 
     def call_external(self, interp, name, recv, args, kwargs, node):
         last = (name or "").rsplit(".", 1)[-1]
+        if last == "range" and args and all(isinstance(a, Const) and isinstance(a.value, int) for a in args) and len(args) <= 3:
+            try:
+                r = range(*[a.value for a in args])
+                if len(r) <= 16:
+                    return Tup([Const(i) for i in r])
+            except Exception:
+                return TOP
+        if last == "len" and args:
+            ok, v = self._py(args[0])
+            if ok and isinstance(v, (tuple, str)):
+                return Const(len(v))
         if last in ("lower", "upper", "strip") and isinstance(recv, Const) and isinstance(recv.value, str) and not args:
             return Const(getattr(recv.value, last)())
         if last in ("startswith", "endswith") and isinstance(recv, Const) and isinstance(recv.value, str) and args and isinstance(args[0], Const):
@@ -100,6 +111,18 @@ class ConstDomain(Domain):
                 return Const(a is not b)
         except Exception:
             return TOP
+        return TOP
+
+    def binop(self, interp, op, l, r, node):
+        if isinstance(l, Const) and isinstance(r, Const) and all(isinstance(x.value, (int, float)) and not isinstance(x.value, bool) for x in (l, r)):
+            import operator as _op
+            tbl = {ast.Add: _op.add, ast.Sub: _op.sub, ast.Mult: _op.mul, ast.FloorDiv: _op.floordiv, ast.Mod: _op.mod, ast.Div: _op.truediv, ast.Pow: _op.pow}
+            f = tbl.get(type(op))
+            if f is not None:
+                try:
+                    return Const(f(l.value, r.value))
+                except Exception:
+                    return TOP
         return TOP
 
     def unary(self, interp, op, val, node):
